@@ -31,7 +31,23 @@
    on the log is its ledger state), the counters
    nct / ndt / nfr of every cell.  A push takes effect at the store that makes the node reachable
    (m_head for push_front and for the first element, oldTail->next for push_back), an erase at
-   the store that unlinks the node from the forward chain. *)
+   the store that unlinks the node from the forward chain.
+
+   Faults carried by the programs (so that every theorem quantifies over every fault plan):
+   - a push / emplace of a NEGATIVE value: the element constructor throws inside construct()
+     ([throws]; pcs PX_alloc / PX_constr / PX_free / PX_unl; the storage is a BRaw cell);
+   - BeginFail / PushFail / EraseFail: the first allocation made inside the call throws std::bad_alloc
+     ([ofails]): the registration record (R_alloc ends the operation, the handle stays unregistered,
+     a later access registers normally), the list node (PA_fail), erase's reclamation record
+     (EF_lock / EF_ld0 / EF_alloc).  K_THROW 2 at the allocate call, K_CATCH 0 when the exception
+     leaves the call (after ~lock_guard where the write mutex was held).
+   erase() (repair eb66dd7 in /repo): the reclamation record is allocated and constructed FIRST
+   (E_alloc, E_constr), then deleted := true and the unlinking (E_ldb, E_ldn, E_s1, E_s2), then the
+   push of the record (E_ldz, E_stz, E_cas); the record is private to the eraser, which holds the
+   write mutex, from its allocation to the CAS.  The pre-repair order (unlink, then allocate) leaked
+   the node when the allocation threw - it was on no log, so not even ~rcu_list freed it; that
+   order is not modelled (reproducer: corpus/C13/rcu_erase_alloc_fail.case, reported by the ledger
+   monitor on git show c9feeb7:gmlc/libguarded/rcu_list.hpp). *)
 From Coq Require Import List Arith ZArith Bool.
 Import ListNotations.
 From GV Require Import Sched Events.
@@ -42,12 +58,15 @@ Inductive op :=
 | LockRead | LockWrite
 | Begin (it : nat) | Next (it : nat) | Deref (it : nat) | IsEnd (it : nat)
 | PushFront (v : Z) | PushBack (v : Z) | EmplFront (v : Z) | EmplBack (v : Z)
-| Erase (it : nat) | Release.
+| Erase (it : nat) | Release
+(* the first allocation made inside the operation throws std::bad_alloc (the driver arms a per-thread flag) *)
+| BeginFail (it : nat) | PushFail (v : Z) | EraseFail (it : nat).
 
 Definition opcode (o : op) : Z :=
   match o with
   | LockRead => 0 | LockWrite => 1 | Begin _ => 2 | Next _ => 3 | Deref _ => 4 | IsEnd _ => 5
   | PushFront _ => 6 | PushBack _ => 7 | EmplFront _ => 8 | EmplBack _ => 9 | Erase _ => 10 | Release => 11
+  | BeginFail _ => 12 | PushFail _ => 13 | EraseFail _ => 14
   end.
 Definition decode_op (z : list Z) : option op :=
   match z with
@@ -57,17 +76,21 @@ Definition decode_op (z : list Z) : option op :=
   | [6; v] => Some (PushFront v) | [7; v] => Some (PushBack v)
   | [8; v] => Some (EmplFront v) | [9; v] => Some (EmplBack v)
   | [10; i] => Some (Erase (Z.to_nat i)) | [11] => Some Release
+  | [12; i] => Some (BeginFail (Z.to_nat i)) | [13; v] => Some (PushFail v) | [14; i] => Some (EraseFail (Z.to_nat i))
   | _ => None
   end.
 Definition is_push (o : op) : bool :=
-  match o with PushFront _ | PushBack _ | EmplFront _ | EmplBack _ => true | _ => false end.
+  match o with PushFront _ | PushBack _ | EmplFront _ | EmplBack _ | PushFail _ => true | _ => false end.
 Definition is_front (o : op) : bool := match o with PushFront _ | EmplFront _ => true | _ => false end.
 Definition push_val (o : op) : Z :=
-  match o with PushFront v | PushBack v | EmplFront v | EmplBack v => v | _ => 0 end.
+  match o with PushFront v | PushBack v | EmplFront v | EmplBack v | PushFail v => v | _ => 0 end.
 (* the element type's constructor throws on a negative payload (the driver's Elem does); this is the
    throw plan: it is part of the programs, so the theorems quantify over every plan *)
 Definition throws (o : op) : bool := (push_val o <? 0)%Z.
 Definition FID_CTOR : Z := 1.
+(* the operation's first allocation fails *)
+Definition ofails (o : op) : bool := match o with BeginFail _ | PushFail _ | EraseFail _ => true | _ => false end.
+Definition BAD_ALLOC : Z := 2.
 
 (* ---------- heap ---------- *)
 Inductive cst := Alloc | Constr | Destr | Freed.
@@ -203,10 +226,12 @@ Inductive pc :=
 | P_unlock
 (* push whose element constructor throws: allocate; construct throws; catch: deallocate; ~lock_guard; rethrow *)
 | PX_alloc | PX_constr (n : nat) | PX_free (n : nat) | PX_unl
+(* allocation failure: of the node in a push, of the record in erase (PX_unl: ~lock_guard, exception leaves the call) *)
+| PA_fail | EF_lock (it c : nat) | EF_ld0 (it c : nat) | EF_alloc
 (* erase *)
-| E_lock (it c : nat) | E_ld0 (it c : nat) | E_ldb (it c : nat) (nx0 : option nat)
-| E_ldn (it c : nat) (nx0 pv : option nat) | E_s1 (it c : nat) (nx0 pv nx : option nat)
-| E_s2 (it c : nat) (nx0 pv nx : option nat)
+| E_lock (it c : nat) | E_ld0 (it c : nat) | E_ldb (it c : nat) (nx0 : option nat) (z : nat)
+| E_ldn (it c : nat) (nx0 pv : option nat) (z : nat) | E_s1 (it c : nat) (nx0 pv nx : option nat) (z : nat)
+| E_s2 (it c : nat) (nx0 pv nx : option nat) (z : nat)
 | E_alloc (it c : nat) (nx0 : option nat) | E_constr (it c : nat) (nx0 : option nat) (z : nat)
 | E_ldz (it : nat) (nx0 : option nat) (z : nat)
 | E_stz (it : nat) (nx0 : option nat) (z : nat) (old : option nat)
@@ -233,7 +258,7 @@ Definition inv_ev (o : op) : ev := E K_INVOKE 0 (opcode o).
 
 (* the first pc of the body of o once the handle is registered *)
 Definition body_pc (o : op) : pc :=
-  match o with Begin it => B_ld it | _ => P_lock o end.
+  match o with Begin it | BeginFail it => B_ld it | _ => P_lock o end.
 (* the reclaim loop at record k: reads k.zombie_node (a plain field) *)
 Definition reclaim_at (g : glob) (k : nat) : pc :=
   match znode (grec g k) with
@@ -263,7 +288,7 @@ Definition tstep (t c : nat) (g : glob) (l : loc) : option (glob * loc * list ev
                         [inv_ev o; ret 0])
         | Some _ => bad
         end
-      | Begin it =>
+      | Begin it | BeginFail it =>
         match hnd l with
         | Some (_, None) => Some (g, nxt (R_alloc o), [inv_ev o])
         | Some (_, Some _) => Some (g, nxt (B_ld it), [inv_ev o])
@@ -287,7 +312,7 @@ Definition tstep (t c : nat) (g : glob) (l : loc) : option (glob * loc * list ev
         | Some None => skip 1
         | None => bad
         end
-      | PushFront _ | PushBack _ | EmplFront _ | EmplBack _ =>
+      | PushFront _ | PushBack _ | EmplFront _ | EmplBack _ | PushFail _ =>
         match hnd l with
         | Some (true, None) => Some (g, nxt (R_alloc o), [inv_ev o])
         | Some (true, Some _) => Some (g, nxt (P_lock o), [inv_ev o])
@@ -296,6 +321,12 @@ Definition tstep (t c : nat) (g : glob) (l : loc) : option (glob * loc * list ev
       | Erase it =>
         match hnd l, getit (its l) it with
         | Some (true, Some _), Some (Some cu) => Some (g, nxt (E_lock it cu), [inv_ev o])
+        | Some (true, Some _), Some None => skip 0
+        | _, _ => bad
+        end
+      | EraseFail it =>
+        match hnd l, getit (its l) it with
+        | Some (true, Some _), Some (Some cu) => Some (g, nxt (EF_lock it cu), [inv_ev o])
         | Some (true, Some _), Some None => skip 0
         | _, _ => bad
         end
@@ -309,6 +340,8 @@ Definition tstep (t c : nat) (g : glob) (l : loc) : option (glob * loc * list ev
     end
   (* ---- rcu_read_lock ---- *)
   | R_alloc o =>
+    if ofails o then Some (g, done_, [E K_THROW 0 BAD_ALLOC; E K_CATCH 0 0])   (* the handle stays unregistered *)
+    else
     let '(g1, z) := do_alloc g (BRec drec) in
     Some (g1, goto (R_constr o z), [E K_ALLOC (cbase z) 2])
   | R_constr o z =>
@@ -338,7 +371,7 @@ Definition tstep (t c : nat) (g : glob) (l : loc) : option (glob * loc * list ev
   (* ---- push ---- *)
   | P_lock o =>
     match wmtx g with
-    | None => Some (with_mtx g (Some t), goto (if throws o then PX_alloc else P_alloc o), [E K_LOCK O_MTX 0])
+    | None => Some (with_mtx g (Some t), goto (if ofails o then PA_fail else if throws o then PX_alloc else P_alloc o), [E K_LOCK O_MTX 0])
     | Some _ => None
     end
   | PX_alloc =>
@@ -349,6 +382,22 @@ Definition tstep (t c : nat) (g : glob) (l : loc) : option (glob * loc * list ev
     let '(g1, es) := do_dealloc_raw g n in
     Some (g1, goto PX_unl, es)
   | PX_unl => Some (with_mtx g None, done_, [E K_UNLOCK O_MTX 0; E K_CATCH 0 0])
+  | PA_fail => Some (g, goto PX_unl, [E K_THROW 0 BAD_ALLOC])
+  | EF_lock it cu =>
+    match wmtx g with
+    | None => Some (with_mtx g (Some t), goto (EF_ld0 it cu), [E K_LOCK O_MTX 0])
+    | Some _ => None
+    end
+  | EF_ld0 it cu =>
+    let nd := gnode g cu in
+    let nx0 := nnext nd in
+    if ndel nd then
+      let '(g1, fe) := chk (okn g cu) cu (commit g (MErase cu)) in
+      Some (g1, goto (E_unlock it nx0), ptr_ld (cbase cu) nx0 mo_default :: fe)
+    else
+      let '(g1, fe) := chk (okn g cu) cu g in
+      Some (g1, goto EF_alloc, ptr_ld (cbase cu) nx0 mo_default :: fe)
+  | EF_alloc => Some (g, goto PX_unl, [E K_THROW 0 BAD_ALLOC])
   | P_alloc o =>
     let '(g1, n) := do_alloc g (BNode dnode) in
     let g2 := if is_front o then with_pos g1 (lo g1 - 1) (hi g1) else with_pos g1 (lo g1) (hi g1 + 1) in
@@ -392,36 +441,38 @@ Definition tstep (t c : nat) (g : glob) (l : loc) : option (glob * loc * list ev
       let '(g1, fe) := chk (okn g cu) cu (commit g (MErase cu)) in
       Some (g1, goto (E_unlock it nx0), ptr_ld (cbase cu) nx0 mo_default :: fe)
     else
-      let '(g1, fe) := chk (okn g cu) cu (setn g cu (n_del nd)) in
-      Some (g1, goto (E_ldb it cu nx0), ptr_ld (cbase cu) nx0 mo_default :: fe)
-  | E_ldb it cu nx0 =>
-    let pv := nback (gnode g cu) in
-    let '(g1, fe) := chk (okn g cu) cu g in
-    Some (g1, goto (E_ldn it cu nx0 pv), ptr_ld (cfld cu) pv mo_default :: fe)
-  | E_ldn it cu nx0 pv =>
-    let nx := nnext (gnode g cu) in
-    let '(g1, fe) := chk (okn g cu) cu g in
-    Some (g1, goto (E_s1 it cu nx0 pv nx), ptr_ld (cbase cu) nx mo_default :: fe)
-  | E_s1 it cu nx0 pv nx =>
-    match pv with
-    | Some p =>
-      let '(g1, fe) := chk (okn g p) p (commit (setn g p (n_next (gnode g p) nx)) (MErase cu)) in
-      Some (g1, goto (E_s2 it cu nx0 pv nx), ptr_st (cbase p) nx mo_default :: fe)
-    | None => Some (commit (with_head g nx) (MErase cu), goto (E_s2 it cu nx0 pv nx), [ptr_st O_HEAD nx mo_default])
-    end
-  | E_s2 it cu nx0 pv nx =>
-    match nx with
-    | Some x =>
-      let '(g1, fe) := chk (okn g x) x (setn g x (n_back (gnode g x) pv)) in
-      Some (g1, goto (E_alloc it cu nx0), ptr_st (cfld x) pv mo_default :: fe)
-    | None => Some (with_tail g pv, goto (E_alloc it cu nx0), [ptr_st O_TAIL pv mo_default])
-    end
+      let '(g1, fe) := chk (okn g cu) cu g in
+      Some (g1, goto (E_alloc it cu nx0), ptr_ld (cbase cu) nx0 mo_default :: fe)
+  (* the reclamation record is allocated and constructed first (repair eb66dd7): if that throws, the list is unchanged *)
   | E_alloc it cu nx0 =>
     let '(g1, z) := do_alloc g (BRec drec) in
     Some (g1, goto (E_constr it cu nx0 z), [E K_ALLOC (cbase z) 2])
   | E_constr it cu nx0 z =>
     let '(g1, es) := do_construct g z (BRec (ZRec None None (Some cu))) in
-    Some (g1, goto (E_ldz it nx0 z), es)
+    Some (g1, goto (E_ldb it cu nx0 z), es)
+  | E_ldb it cu nx0 z =>          (* deleted = true (plain), then back.load() *)
+    let nd := gnode g cu in
+    let pv := nback nd in
+    let '(g1, fe) := chk (okn g cu) cu (setn g cu (n_del nd)) in
+    Some (g1, goto (E_ldn it cu nx0 pv z), ptr_ld (cfld cu) pv mo_default :: fe)
+  | E_ldn it cu nx0 pv z =>
+    let nx := nnext (gnode g cu) in
+    let '(g1, fe) := chk (okn g cu) cu g in
+    Some (g1, goto (E_s1 it cu nx0 pv nx z), ptr_ld (cbase cu) nx mo_default :: fe)
+  | E_s1 it cu nx0 pv nx z =>
+    match pv with
+    | Some p =>
+      let '(g1, fe) := chk (okn g p) p (commit (setn g p (n_next (gnode g p) nx)) (MErase cu)) in
+      Some (g1, goto (E_s2 it cu nx0 pv nx z), ptr_st (cbase p) nx mo_default :: fe)
+    | None => Some (commit (with_head g nx) (MErase cu), goto (E_s2 it cu nx0 pv nx z), [ptr_st O_HEAD nx mo_default])
+    end
+  | E_s2 it cu nx0 pv nx z =>
+    match nx with
+    | Some x =>
+      let '(g1, fe) := chk (okn g x) x (setn g x (n_back (gnode g x) pv)) in
+      Some (g1, goto (E_ldz it nx0 z), ptr_st (cfld x) pv mo_default :: fe)
+    | None => Some (with_tail g pv, goto (E_ldz it nx0 z), [ptr_st O_TAIL pv mo_default])
+    end
   | E_ldz it nx0 z => Some (g, goto (E_stz it nx0 z (zhead g)), [ptr_ld O_ZHEAD (zhead g) mo_default])
   | E_stz it nx0 z old =>
     let '(g1, fe) := chk (okz g z) z (setz g z (z_next (grec g z) old)) in
